@@ -88,6 +88,15 @@ def main():
                 ur = units[0]; uq = rng.choice(units)
                 lu = {"log": log, "prefix": pre, "ref": {"m": ["int", "2", "1"], "u": ur}}
                 cases.append({"op": "level", "l": {"t": "qty", "m": ["int", str(qm), "1"], "u": uq}, "r": lu}); meta.append((fam, k, base, pv, uq, ur))
+    # Decimal magnitudes (quantity and reference): the definition does not depend on the numeric type, whatever the base
+    for fam in FAMS:
+        units, k = FAMS[fam]
+        for log, pre, base, pv in LOGS:
+            for qm, rm in ((Fraction(2), Fraction(1)), (Fraction(5, 4), Fraction(1, 2)), (Fraction(1000), Fraction(1))):
+                ur = units[0]
+                dm = lambda f: ["dec", str(f.numerator), str(f.denominator)]
+                lu = {"log": log, "prefix": pre, "ref": {"m": dm(rm), "u": ur}}
+                cases.append({"op": "level", "l": {"t": "qty", "m": dm(qm), "u": rng.choice(units)}, "r": lu}); meta.append((fam, k, base, pv, None, ur))
     # monotonicity pairs
     mono = []
     for _ in range(60 if quick else 600):
@@ -99,6 +108,13 @@ def main():
             cases.append({"op": "level", "l": {"t": "qty", "m": fl(x), "u": u}, "r": {"log": log, "prefix": pre, "ref": ref}}); meta.append((fam, k, base, pv, u, ref["u"]))
         mono.append(len(cases) - 2)
     recs = impl("meas_worker.py", {"cases": cases})["results"]
+    # the same definitions after an application has defined a further fundamental dimension (Dimension.define re-keys every dimension):
+    # a sample of the cases run again in such a process and judged by the same oracle
+    nbase = len(cases)
+    again = [i for i in range(nbase) if i not in set(mono) and i - 1 not in set(mono)]
+    rng.shuffle(again); again = again[: (120 if quick else 1500)]
+    recs2 = impl("meas_worker.py", {"cases": [cases[i] for i in again], "define_dimension": ["vf currency", "VFC"]})["results"]
+    cases = cases + [dict(cases[i], after_define=True) for i in again]; meta = meta + [meta[i] for i in again]; recs = recs + recs2
     stats = {"levels": 0, "quantifies": 0, "monotone_pairs": 0}
     TOL = Decimal("1e-9")
     def close(a, b, scale=None):
